@@ -30,7 +30,7 @@ EXTRA_MODULES = {
     "C08": ["Proofs.C08", "Proofs.C08Source"],
     "C10": ["Proofs.C10", "Proofs.C10Source"],
     "C11": ["Proofs.C11"],
-    "C12": ["Proofs.C12"],
+    "C12": ["Proofs.C12", "Proofs.C12Source"],
     "C14": ["Proofs.C14"],
     "C18": ["Proofs.C18"],
     "C19": ["Proofs.C19"],
